@@ -1,7 +1,7 @@
 import TaskModel.Load.RootRef
 import TaskModel.Gen.Codes
 import Driver.Util
-import TaskModel.Resolve.Table
+import TaskModel.Resolve.OfLoad
 /-!
 Driver glue for the `load` domain.
 
@@ -157,12 +157,17 @@ def doResolve (args : List String) : Option String := do
   match load fm root with
   | .error e => some s!"err {errName e} {errCode e}"
   | .ok tf =>
-    let toStr (n : Name) : List Char := n.map Char.ofNat
-    let tbl : List TaskModel.Resolve.Entry := tf.tasks.map (fun t => { name := toStr t.name, aliases := t.aliases.map toStr })
+    let toStr := TaskModel.Resolve.toStr
+    let tbl : List TaskModel.Resolve.Entry := TaskModel.Resolve.ofLoad tf
     let nameAt (i : Nat) : String := match tf.tasks[i]? with | some t => hexName t.name | none => "?"
     let answer (rq : Name) : String :=
       match TaskModel.Resolve.resolve tbl (toStr rq) with
-      | .found i ws => " ".intercalate (["found", nameAt i, toString ws.length] ++ ws.map hexChars)
+      | .found i ws =>
+        -- what a command `{{range .MATCH}}<{{.}}>{{end}}` (shell command 9000) of that task renders to
+        let rendered : String := match tf.tasks[i]? with
+          | some t => if t.cmds.any (fun c => c.task.isEmpty && c.sh == 9000) then hexChars (ws.flatMap (fun w => '<' :: w ++ ['>'])) else "-"
+          | none => "?"
+        " ".intercalate (["found", nameAt i, toString ws.length] ++ ws.map hexChars ++ ["R", rendered])
       | .conflict is => " ".intercalate (["conflict", toString is.length] ++ sortStrs (is.map nameAt))
       | .notFound => "notfound"
     some (" | ".intercalate ("ok" :: reqs.map answer))
